@@ -9,8 +9,8 @@ import (
 	"encoding/hex"
 	"encoding/json"
 	"fmt"
-	"os"
 	"github.com/cosmos/cosmos-sdk/x/bank"
+	"os"
 	"runtime/debug"
 	"strings"
 	"time"
@@ -18,8 +18,8 @@ import (
 	abci "github.com/tendermint/tendermint/abci/types"
 	tmbytes "github.com/tendermint/tendermint/libs/bytes"
 	"github.com/tendermint/tendermint/libs/log"
-	dbm "github.com/tendermint/tm-db"
 	tmproto "github.com/tendermint/tendermint/proto/tendermint/types"
+	dbm "github.com/tendermint/tm-db"
 
 	sdk "github.com/cosmos/cosmos-sdk/types"
 	authtypes "github.com/cosmos/cosmos-sdk/x/auth/types"
@@ -76,12 +76,12 @@ type App struct {
 	modSvcProvider sdk.AccAddress
 
 	// mutable per-history hooks used by the registered callbacks
-	cur     *World
-	startAt int64 // height at which the next history starts
-	nextCommit bool // the next history started on this worker runs in commit mode (on a chain of its own)
+	cur           *World
+	startAt       int64  // height at which the next history starts
+	nextCommit    bool   // the next history started on this worker runs in commit mode (on a chain of its own)
 	db            dbm.DB // commit mode: the node's database (survives a node restart)
 	noNodeRestart bool   // replicas of the replay differential never restart the node
-	commit  bool  // built by NewAppAt: one history, through BeginBlock / EndBlock / Commit
+	commit        bool   // built by NewAppAt: one history, through BeginBlock / EndBlock / Commit
 }
 
 // NewApp builds a fresh chain (real bank/auth/params keepers, IAVL store) and
@@ -142,6 +142,18 @@ func newAppOn(app *simapp.SimApp, withBaseCtx bool) *App {
 			Kind: "response", CtxID: hexs(id), Outputs: append([]string(nil), outputs...), Err: err != nil,
 			SeenCounter: rc.BatchCounter, SeenFound: found,
 		})
+		if a.cur.respCbKillOthers && err != nil {
+			// a module may react to a failed batch by giving up its other contexts
+			for _, other := range a.cur.moduleContexts(ctx) {
+				if other != hexs(id) {
+					orc, _ := a.cur.rawContext(ctx, unhex(other))
+					if orc.State != types.COMPLETED && orc.Repeated {
+						ok := a.k.KillRequestContext(ctx, unhex(other), orc.Consumer) == nil
+						a.cur.cbLog = append(a.cur.cbLog, CallbackRec{Kind: "react", CtxID: other, React: "kill", ReactOK: ok})
+					}
+				}
+			}
+		}
 	}))
 	must(a.k.RegisterStateCallback(verifModule, func(ctx sdk.Context, id tmbytes.HexBytes, cause string) {
 		if a.cur == nil {
@@ -231,6 +243,7 @@ type World struct {
 	stateCbKill       bool // the verifmod double kills a context from inside its state callback
 	viaApp            bool // end-of-block through the application's module manager
 	stateCbKillOthers bool // the double also kills its other contexts from inside the state callback
+	respCbKillOthers  bool // the double kills its other contexts from inside the response callback of a failed batch
 	hostileHashes     bool // some transactions get structured hashes
 	commit            bool // real BeginBlock / EndBlock / Commit of the application around every block
 	begun             bool
@@ -684,7 +697,15 @@ func (w *World) ChangeParams(p types.Params) (res StepResult) {
 	if !ok {
 		panic("no parameter subspace for the service module")
 	}
-	ss.SetParamSet(w.curCtx(), &p)
+	// a proposal whose values the parameter store's validation functions refuse fails as a whole
+	// and changes nothing
+	cctx, write := w.curCtx().CacheContext()
+	if pan, _ := guard(func() { ss.SetParamSet(cctx, &p) }); pan != "" {
+		res.Err = "parameter change refused: " + pan
+		res.ErrCode = "params-refused"
+		return
+	}
+	write()
 	w.params = p
 	res.OK = true
 	return
@@ -723,6 +744,15 @@ func (w *World) Restart(rewrite bool) (res StepResult) {
 		it.Close()
 		for _, k := range keys {
 			store.Delete(k)
+		}
+		// a restart goes through the genesis FILE: the JSON form written and read back by the
+		// application's codec (when it can be read back at all - see D14; otherwise the exported
+		// structure is imported as it is, so that the history can go on)
+		if bz, err := w.a.app.AppCodec().MarshalJSON(gs); err == nil {
+			var back types.GenesisState
+			if w.a.app.AppCodec().UnmarshalJSON(bz, &back) == nil {
+				gs = &back
+			}
 		}
 		if rewrite {
 			for i, j := 0, len(gs.Definitions)-1; i < j; i, j = i+1, j-1 {
